@@ -84,7 +84,7 @@ def run_cell(args):
                 model = eng.model()
                 inputs = ctx.inputs(model)
             except core.Inconclusive:
-                res["engine"].append("no model for finished path")
+                res["engine"].append("no model for finished path cell=%s" % json.dumps(cell))
                 continue
             if st == "unsupported":
                 res["unsupported"].append(str(rec["exc"]))
@@ -102,7 +102,8 @@ def run_cell(args):
                 else:
                     for lab, det in r.get("failed", []):
                         _cand(res, seen_labels, lab, det, inputs, r, confirmed=True)
-                    res["engine"].append("path budget exhausted but pristine run returns: %r" % (inputs,))
+                    res["engine"].append("path budget exhausted but pristine run returns: cell=%s %r" % (
+                        json.dumps(cell), inputs))
                 continue
             # ok path: cross-validate the observation under the path's model
             eng.eval_model = model
@@ -126,8 +127,8 @@ def run_cell(args):
                         res["engine"].append("oracle %s for %r: %s" % (
                             r["status"], inputs, r.get("exc", "") + r.get("tb", "")))
                 elif not _obs_equal(obs, r["obs"]):
-                    res["engine"].append("ENGINE-MISMATCH inputs=%r symbolic=%r pristine=%r" % (
-                        inputs, obs, r["obs"]))
+                    res["engine"].append("ENGINE-MISMATCH cell=%s inputs=%r symbolic=%r pristine=%r" % (
+                        json.dumps(cell), inputs, obs, r["obs"]))
                 else:
                     res["validated"] += 1
                     # any concrete failure on the path's own witness is a confirmed violation
@@ -289,6 +290,9 @@ def report(pid, mod, a, seed, cells, results, wall):
             stats.obligations - stats.discharged))
     for pmsg in problems:
         print("ENGINE: " + pmsg)
+    if a.verbose:
+        for e in engine[:40]:
+            print("  engine: " + e[:600])
     if problems and rc == EXIT_OK:
         rc = EXIT_ENGINE
     ev = {
